@@ -20,6 +20,7 @@ func init() {
 	vrt.Register("C03_template_api", TemplateAPI)
 	vrt.Register("C03_histories", Histories)
 	vrt.Register("C03_near_valid", NearValid)
+	vrt.Register("C03_near_valid_whole", NearValidWhole)
 	vrt.Register("C03_deep_nesting", DeepNesting)
 }
 
@@ -221,6 +222,33 @@ func NearValid() {
 		toks = edit(toks, 8) // a second edit from the bracket / comma subset
 	}
 	total(strings.Join(toks, " "))
+}
+
+// what Parse accepts is a whole program: it can be printed and evaluated (here with
+// an empty context, so most runs end in an error value) without meeting a hole
+// the parser left in it
+func NearValidWhole() {
+	toks := strings.Split(validPrograms[vrt.Choice(len(validPrograms))], " ")
+	nv := 20
+	if vrt.Tier() > 0 {
+		nv = len(editVocab)
+	}
+	toks = edit(toks, nv)
+	input := strings.Join(toks, " ")
+	vrt.Note("input", input)
+	t, err := plush.NewTemplate(input)
+	if err != nil {
+		vrt.Cover("error")
+		return
+	}
+	ctx := plush.NewContext()
+	ctx.Set("xs", []int{1})
+	ctx.Set("a", true)
+	out, xerr := t.Exec(ctx)
+	if xerr != nil {
+		vrt.Assert(out == "", "an error comes with empty output")
+	}
+	vrt.Cover("parsed")
 }
 
 // ---- deep nesting: d nested blocks (if / for / fn / a helper call with a block,
